@@ -39,6 +39,7 @@ type MemStore struct {
 	perm       uint64
 	pending    []storeEvent // local writes not yet echoed to watchers
 	parks      parkSet      // writes selected to be held back (Park)
+	tr         *Translator  // harness subscriber name -> id as it appears in the keys (nil: identity)
 }
 
 // NewMemStore creates an empty store; call number failAt (1-based, 0 = never) fails.
@@ -143,9 +144,10 @@ func (m *MemStore) Watch(prefix string, cb func(key string, value []byte, delete
 // its gate (the write is in flight, nothing has been applied), and the write is applied - or refused - when the
 // gate opens. Called and returns with m.mu held.
 func (m *MemStore) parkLocked(op, key string) error {
+	// keys are "/allocation/<pool>/<subscriber id>"; the id itself may contain "/"
 	sub := key
-	if i := strings.LastIndexByte(key, '/'); i >= 0 {
-		sub = key[i+1:]
+	if parts := strings.SplitN(key, "/", 4); len(parts) == 4 && parts[0] == "" {
+		sub = parts[3]
 	}
 	g := m.parks.match(op, sub)
 	if g == nil {
@@ -163,7 +165,7 @@ func (m *MemStore) parkLocked(op, key string) error {
 
 // Park selects the nth (1-based) future write of kind op ("put", "delete" or "" = either) for subscriber sub
 // ("" = any) to be held back at the returned gate until Gate.Open.
-func (m *MemStore) Park(op, sub string, nth int) *Gate { return m.parks.add(op, sub, nth) }
+func (m *MemStore) Park(op, sub string, nth int) *Gate { return m.parks.add(op, m.tr.ID(sub), nth) }
 
 // Arm resets the call counter and selects the call (1-based, 0 = none) that will fail.
 func (m *MemStore) Arm(failAt int) { m.mu.Lock(); m.calls, m.failAt = 0, failAt; m.mu.Unlock() }
@@ -225,11 +227,14 @@ type FailingAllocStore struct {
 	failAt     int
 	lastFailed string
 	parks      parkSet
+	tr         *Translator // harness subscriber name -> id as the allocator passes it (nil: identity)
 }
 
 // Park selects the nth (1-based) future write of kind op ("save", "remove" or "" = either) for subscriber sub
 // ("" = any) to be held back at the returned gate until Gate.Open.
-func (f *FailingAllocStore) Park(op, sub string, nth int) *Gate { return f.parks.add(op, sub, nth) }
+func (f *FailingAllocStore) Park(op, sub string, nth int) *Gate {
+	return f.parks.add(op, f.tr.ID(sub), nth)
+}
 
 func (f *FailingAllocStore) park(op, sub string) error {
 	g := f.parks.match(op, sub)
